@@ -217,6 +217,7 @@ def run(repo, res, tier):
     if len(checks) < 3:
         raise AnalysisError("is_reached: only %d attribute checks found in %s" % (len(checks), [f.name for f, _r in region]))
     checked = set()
+    seq_flags = set()
     for k in checks:
         t = norm(k.call)[:100]
         ok = k.roles.get(k.sb) == "state" and k.roles.get(k.gb) == "goal" and bool(k.sa) and k.sa == k.ga
@@ -235,7 +236,15 @@ def run(repo, res, tier):
                 tgt = norm(par.targets[0])
                 conj = any(norm(v) == tgt for v in node.values)
             elif isinstance(par, ast.Assign):
-                conj = False
+                # flag = check, executed only while the flag still holds (or as the first check after flag = True)
+                tgt = norm(par.targets[0])
+                g_ = dominating_guards(gmod, par, stop=k.fn)
+                guarded = any(pol and norm(t) == tgt for t, pol in g_)
+                earlier = [k2 for k2 in checks if k2.fn is k.fn and (k2.call.lineno, k2.call.col_offset) < (k.call.lineno, k.call.col_offset)]
+                inits_ = [n_ for n_ in walk_no_nested(k.fn) if isinstance(n_, ast.Assign) and norm(n_.targets[0]) == tgt and isinstance(n_.value, ast.Constant) and n_.value.value is True and n_.lineno < par.lineno]
+                conj = guarded or (not earlier and bool(inits_))
+                if conj:
+                    seq_flags.add((id(k.fn), tgt))
         elif isinstance(par, ast.UnaryOp) and isinstance(par.op, ast.Not):
             iff = gmod.parent.get(par)
             if isinstance(iff, ast.If) and iff.test is par and len(iff.body) == 1:
@@ -255,7 +264,7 @@ def run(repo, res, tier):
         for r in walk_no_nested(fn_):
             if isinstance(r, ast.Return):
                 v = r.value
-                ok = isinstance(v, ast.Constant) and v.value in (True, False) or any(any(k.call is y for y in ast.walk(v)) for k in checks) if v is not None else False
+                ok = (isinstance(v, ast.Constant) and v.value in (True, False) or any(any(k.call is y for y in ast.walk(v)) for k in checks) or (isinstance(v, ast.Name) and (id(fn_), v.id) in seq_flags)) if v is not None else False
                 res.check("Q4-LOGIC", "%s returns a truth value of its checks" % fn_.name, ok, gmod, r, "%s: %s" % (fn_.name, norm(r)[:80]), "the per-goal predicate returns something else than the conjunction of its checks", qualname="GoalRegion." + fn_.name)
     # flag style inside is_reached: starts True, only conjoined
     flags = {norm(gmod.parent.get(k.call if not isinstance(gmod.parent.get(k.call), ast.BoolOp) else gmod.parent.get(k.call)).targets[0]) for k in checks if k.fn is isr and isinstance(gmod.parent.get(k.call), ast.BoolOp) and isinstance(gmod.parent.get(gmod.parent.get(k.call)), ast.Assign)}
